@@ -20,7 +20,7 @@ def compile_source(src):
         return BardCompiler().compile_string(src)
 
 
-def walk(rng, story, n_ops, variant="main", weights=None, per_call_s=5.0):
+def walk(rng, story, n_ops, variant="main", weights=None, per_call_s=5.0, prefer=None):
     """Random walk on the REAL engine; returns (ops, real_answer)."""
     w = dict(choose=55, bad=5, undo=8, redo=6, goto=4, save=3, load=2, fresh=2, read=13, reset=1, loadbad=1)
     if weights:
@@ -48,6 +48,11 @@ def walk(rng, story, n_ops, variant="main", weights=None, per_call_s=5.0):
                 op = {"op": "choose", "i": again}
             elif k == "choose":
                 op = {"op": "choose", "i": rng.randrange(n)}
+                if prefer:
+                    # steer towards the call site under test when it is on offer
+                    want = [i for i, c in enumerate(cur.choices) if c.get("target", "").strip() in prefer]
+                    if want and rng.random() < 0.8:
+                        op = {"op": "choose", "i": rng.choice(want)}
             elif k == "bad":
                 op = {"op": "choose", "i": rng.choice([-1, -2, n, n + 1, n + 7])}
             elif k == "undo":
